@@ -6,7 +6,7 @@ from ..harness import impl, scn, gen, obs as O, pyeval
 from . import base_scn
 
 pid = 'C08'
-gen_modules = ['tr_state', 'tr_validators', 'tr_has_patcher', 'tr_contracts', 'tr_decorators', 'tr_pin_contracts', 'tr_rest_validators', 'tr_rest_patcher', 'tr_rest_state', 'tr_dispatch', 'tr_rest_dispatch', 'tr_rest_trace']
+gen_modules = ['tr_state', 'tr_validators', 'tr_has_patcher', 'tr_contracts', 'tr_decorators', 'tr_pin_contracts', 'tr_rest_validators', 'tr_rest_patcher', 'tr_rest_state', 'tr_dispatch', 'tr_rest_dispatch', 'tr_rest_trace', 'tr_rest_contractsconst']
 model_targets = ['Sem/Scenario.v']
 hand_modelled = ['coq/Py/Sig.v', 'coq/Sem/Model.v']
 explanation = ('Frame theorems about patch/unpatch and the debug brackets of the generated wrappers; correspondence + monitor over random call '
